@@ -29,6 +29,7 @@ static long steps = 0, max_steps = 4000000, nviol = 0, spurious = 0, switches = 
 static prng_t G;       // scheduler choices
 static prng_t GP;      // program choices
 static int mode = 0;   // 0 tfree, 1 exit, 2 heap
+static int big_arena = 0;   // VERIF_BIG_ARENA: a 4 GiB arena (128 blocks, two bitmap fields) and huge farewell blocks
 static int lockfmt = 0; // mode `lock`: tfree program, log in the lockstep format of ocaml/mode_tfree.ml
 static int nops = 200;
 static volatile int phase = 0, arrived = 0;
@@ -43,7 +44,7 @@ static void viol(const char* kind, const char* fmt, ...) {
 
 // ---- shared slot table (accessed only between allocator calls: no scheduling point inside) ----
 typedef struct { uint8_t* p; size_t size; uint64_t seed; int owner; int heapk; } slot_t;
-#define NFAREWELL 6
+#define NFAREWELL 26
 #define NSLOTX (NSLOT + MAXT * NFAREWELL)      // the tail holds 'farewell' blocks a thread allocates just before it exits
 static slot_t slots[NSLOTX];
 static inline uint8_t pat(uint64_t seed, size_t i) { uint64_t x = seed + i * 0x9E3779B97F4A7C15ull; x ^= x >> 29; x *= 0xBF58476D1CE4E5B9ull; x ^= x >> 32; return (uint8_t)x | 1; }
@@ -204,14 +205,25 @@ void verif_post(int op, volatile void* p, int ok, uintptr_t oldv) {
 static const size_t SIZES[] = { 8, 16, 24, 48, 64, 120, 256, 1000, 4000, 9000, 40000, 70000, 200000 };
 static mi_heap_t* extra_heap[MAXT];    // mode heap: one extra heap per thread
 
+// blocks above 1 MiB are touched in their first and last 4 KiB and 16 bytes per 64 KiB only
+static inline int touched(size_t i, size_t n) { return n <= (1u << 20) || i < 4096 || i >= n - 4096 || (i & 65535) < 16; }
 static void check_block(int s, const char* why) {
   slot_t* t = &slots[s];
-  for (size_t i = 0; i < t->size; i++) if (t->p[i] != pat(t->seed, i)) { viol("content", "%s: slot %d (%p size %zu owner t%d) byte %zu changed", why, s, t->p, t->size, t->owner, i); return; }
+  for (size_t i = 0; i < t->size; i++) if (touched(i, t->size) && t->p[i] != pat(t->seed, i)) { viol("content", "%s: slot %d (%p size %zu owner t%d) byte %zu changed", why, s, t->p, t->size, t->owner, i); return; }
 }
 static void do_alloc(int s) {
   // a few classes only, so that threads meet on the same pages: 40000/70000 (13 resp. 7 blocks per page: pages fill
   // up and go through the full queue), 200000 (single-block page: always full, every remote free is a first free)
   static const size_t FOCUS[] = { 40000, 40000, 70000, 200000, 64, 1000 };
+  if (big_arena && s >= NSLOT) {   // farewell block in the big-arena variant: a huge block = its own segment = one arena block
+    size_t hsize = (17u << 20) + (size_t)prng_below(&GP, 8u << 20);
+    uint64_t hseed = prng_next(&GP);
+    uint8_t* hp = (uint8_t*)mi_malloc(hsize);
+    if (hp == NULL) { viol("fail", "malloc(%zu) returned NULL", hsize); return; }
+    for (size_t i = 0; i < hsize; i++) if (touched(i, hsize)) hp[i] = pat(hseed, i);
+    slots[s].p = hp; slots[s].size = hsize; slots[s].seed = hseed; slots[s].owner = cur; slots[s].heapk = 0;
+    return;
+  }
   size_t size = (prng_below(&GP, 10) < 7) ? FOCUS[prng_below(&GP, 6)] : SIZES[prng_below(&GP, sizeof(SIZES) / sizeof(SIZES[0]))];
   if (lockfmt && size < 4000) size = 40000;          // few blocks per page: the replayed states stay small
   uint64_t seed = prng_next(&GP);
@@ -225,7 +237,7 @@ static void do_alloc(int s) {
     if (p < slots[i].p + slots[i].size && slots[i].p < p + size) { viol("overlap", "malloc(%zu)=%p overlaps live slot %d [%p,+%zu) of t%d", size, p, i, slots[i].p, slots[i].size, slots[i].owner); break; }
   }
   if (slots[s].p != NULL) { lk_call("free", p); if (lockfmt) lk_subject = _mi_ptr_page(p); mi_free(p); lk_ret(); lk_subject = NULL; return; }      // slot was filled while we were inside malloc
-  for (size_t i = 0; i < size; i++) p[i] = pat(seed, i);
+  for (size_t i = 0; i < size; i++) if (touched(i, size)) p[i] = pat(seed, i);
   slots[s].p = p; slots[s].size = size; slots[s].seed = seed; slots[s].owner = cur; slots[s].heapk = useheap;
   page_id(_mi_ptr_page(p)); heap_id(mi_page_heap(_mi_ptr_page(p)) ? mi_page_heap(_mi_ptr_page(p)) : mi_prim_get_default_heap());
 }
@@ -272,7 +284,7 @@ static void run_program(void) {
   }
   if (mode == 1 && cur != 0) {
     // farewell blocks: left behind in segments that are abandoned when this thread exits
-    for (int k = 0; k < NFAREWELL; k++) { int s = NSLOT + cur * NFAREWELL + k; if (slots[s].p == NULL) do_alloc(s); }
+    for (int k = 0; k < (big_arena ? NFAREWELL : 6); k++) { int s = NSLOT + cur * NFAREWELL + k; if (slots[s].p == NULL) do_alloc(s); }
   }
   if (mode == 0) {
     // phase 1: everything is freed, by whichever thread gets there first
@@ -349,6 +361,8 @@ int main(int argc, char** argv) {
   signal(SIGSEGV, on_segv); signal(SIGBUS, on_segv); signal(SIGABRT, on_segv);
   if (getenv("VERIF_RECLAIM_ON_FREE")) mi_option_set(mi_option_abandoned_reclaim_on_free, atoi(getenv("VERIF_RECLAIM_ON_FREE")));
   if (getenv("VERIF_NO_ARENA")) mi_option_set(mi_option_disallow_arena_alloc, 1);
+  if (getenv("VERIF_TARGET_SEGMENTS")) mi_option_set(mi_option_target_segments_per_thread, atoi(getenv("VERIF_TARGET_SEGMENTS")));
+  if (getenv("VERIF_BIG_ARENA")) { big_arena = 1; mi_arena_id_t aid; if (mi_reserve_os_memory_ex((size_t)4 << 30, false, false, false, &aid) != 0) { printf("V fail could not reserve the big arena\nEND steps=0 viol=1\n"); return 0; } }
   if (mode == 1) mi_option_set(mi_option_visit_abandoned, 1);   // must be enabled from the start
   void* warm = mi_malloc(8); mi_free(warm);
   vts[0].alive = 1; vts[0].defheap = _mi_heap_default; heap_id(mi_prim_get_default_heap());
@@ -367,9 +381,34 @@ int main(int argc, char** argv) {
   if (mode == 1) check_abandoned_visit();
   // quiescence: free what is left, collect, and look at what the allocator still holds
   for (int j = 0; j < NSLOTX; j++) if (slots[j].p != NULL) { check_block(j, "at quiescence"); uint8_t* p = slots[j].p; slots[j].p = NULL; mi_free(p); }
+  if (getenv("VERIF_DEBUG_LEAK")) {
+    for (size_t j = 0; j < mi_arena_get_count(); j++) { mi_arena_t* a = mi_arena_from_index(j); if (!a) continue;
+      for (size_t b = 0; b < a->block_count; b++) if (a->blocks_inuse[b / 64] & ((size_t)1 << (b % 64))) {
+        mi_segment_t* sg = (mi_segment_t*)(a->start + b * MI_ARENA_BLOCK_SIZE);
+        printf("D-before arena %zu block %zu: tid=%lx used=%zu abandoned=%zu kind=%d abandoned_bit=%d purge_bit=%d\n", j, b, (unsigned long)sg->thread_id, sg->used, sg->abandoned, (int)sg->kind,
+               (int)((a->blocks_abandoned[b / 64] >> (b % 64)) & 1), (int)((a->blocks_purge[b / 64] >> (b % 64)) & 1));
+      } }
+    printf("D-before abandoned_count=%zu\n", mi_atomic_load_relaxed(&mi_subproc_default.abandoned_count));
+  }
   for (int k = 0; k < 3; k++) mi_collect(true);
   size_t blocks = 0; mi_heap_visit_blocks(mi_prim_get_default_heap(), true, &count_visitor, &blocks);
   size_t abandoned = mi_atomic_load_relaxed(&mi_subproc_default.abandoned_count);
+  {  // once the last block has been freed the memory is released: no arena block may still be claimed by a segment
+    size_t inuse = 0;
+    for (size_t j = 0; j < mi_arena_get_count(); j++) {
+      mi_arena_t* a = mi_arena_from_index(j); if (a == NULL) continue;
+      for (size_t b = 0; b < a->block_count; b++) if (mi_atomic_load_relaxed(&a->blocks_inuse[b / 64]) & ((size_t)1 << (b % 64))) inuse++;
+    }
+    if (inuse != 0 && getenv("VERIF_DEBUG_LEAK")) {
+      for (size_t j = 0; j < mi_arena_get_count(); j++) { mi_arena_t* a = mi_arena_from_index(j); if (!a) continue;
+        for (size_t b = 0; b < a->block_count; b++) if (a->blocks_inuse[b / 64] & ((size_t)1 << (b % 64))) {
+          mi_segment_t* sg = (mi_segment_t*)(a->start + b * MI_ARENA_BLOCK_SIZE);
+          printf("D arena %zu block %zu: segment tid=%lx used=%zu abandoned=%zu kind=%d entries=%zu abandoned_bit=%d dont_free=%d\n", j, b, (unsigned long)sg->thread_id, sg->used, sg->abandoned, (int)sg->kind, sg->slice_entries,
+                 (int)((a->blocks_abandoned[b / 64] >> (b % 64)) & 1), (int)sg->dont_free);
+        } }
+    }
+    if (inuse != 0) viol("segment-leak", "%zu arena blocks are still claimed after every block was freed and the heaps force-collected", inuse);
+  }
   if (blocks != 0) viol("leak", "main heap still reports %zu blocks after everything was freed and collected", blocks);
   if (abandoned != 0) viol("abandoned-leak", "%zu abandoned segments remain after all their blocks were freed and a forced collect", abandoned);
   printf("END steps=%ld viol=%ld switches=%ld spurious=%ld pages=%d\n", steps, nviol, switches, spurious, npages);
